@@ -55,9 +55,9 @@ def build(program: dict) -> dict:
         for p, nd in paths(spec):
             if p == end["path"]:
                 if end["phase"] == "ctor":
-                    nd["ctor_fail"] = "E"
+                    nd["ctor_fail"] = end.get("cls", "E")
                 else:
-                    nd[end["phase"]].insert(2 if end["pos"] == "after" else 1, ("fail", "E"))
+                    nd[end["phase"]].insert(2 if end["pos"] == "after" else 1, ("fail", end.get("cls", "E")))
     if end["kind"] == "conflict":
         # a component re-publishes a (type, name) that is already taken, with a teardown callback: start-up fails, and the
         # callback of the failed call must never run
@@ -72,7 +72,7 @@ def build(program: dict) -> dict:
                 nd["start"].insert(1, ("svc", "crasher", [("gate", "c"), ("crash",)]))
     if program.get("svc"):
         last = paths(spec)[-1][1]
-        last["prepare"].insert(1, ("svc", "bg", [("forever",)]))
+        last["prepare"].insert(1, ("svc", "bg", ([("owntd",)] if program["svc"] == "owntd" else []) + [("forever",)]))
     if program["cli"]:
         if end["kind"] == "run-return":
             spec["run"] = [("td", "td:run"), ("gate", "r"), ("return", RUN_VALUES[end["value"]])]
@@ -139,6 +139,14 @@ class C15(E1Check):
                     progs.append({"tree": tree, "cli": cli, "svc": svc, "end": {"kind": "timeout"}})
                     for sig in ("SIGINT", "SIGTERM"):
                         progs.append({"tree": tree, "cli": cli, "svc": svc, "end": {"kind": "signal", "sig": sig}})
+                    if svc:
+                        # the background service has an asynchronous teardown callback on its own context
+                        progs.append({"tree": tree, "cli": cli, "svc": "owntd", "end": {"kind": "signal", "sig": "SIGTERM"}})
+                        progs.append({"tree": tree, "cli": cli, "svc": "owntd", "end": {"kind": "fail", "path": ps[-1], "phase": "start", "pos": "before"}})
+                    else:
+                        # a start-up failure whose exception is a BaseException that is neither an Exception nor a cancellation
+                        for p, phase in ((ps[-1], "start"), (ps[0], "prepare"), (ps[-1], "ctor")):
+                            progs.append({"tree": tree, "cli": cli, "svc": svc, "end": {"kind": "fail", "path": p, "phase": phase, "pos": "before", "cls": "B"}})
                     for p in ps[-1:]:
                         progs.append({"tree": tree, "cli": cli, "svc": svc, "end": {"kind": "svc-crash", "path": p}})
                         progs.append({"tree": tree, "cli": cli, "svc": svc, "end": {"kind": "conflict", "path": p}})
